@@ -22,10 +22,11 @@ type Doc struct {
 
 // G generates documents.
 type G struct {
-	R        *sg.Rng
-	NoMulti  bool // no multi-byte strings
-	YAMLSafe bool // avoid scalars that YAML would read differently from JSON
-	seq      int
+	R         *sg.Rng
+	NoMulti   bool // no multi-byte strings
+	YAMLSafe  bool // avoid scalars that YAML would read differently from JSON
+	IntLimits bool // valid integers also drawn from the 8/16/32/64-bit limits
+	seq       int
 }
 
 // pools -------------------------------------------------------------------------------------
@@ -378,7 +379,7 @@ func (g *G) valid(s *sg.Schema, m Mode, depth int) (any, bool) {
 		return g.pickValid(&sg.Schema{Types: []string{"string"}, MinLen: s.MinLen, MaxLen: s.MaxLen, Pattern: s.Pattern}, cs)
 	case "integer", "number":
 		var cs []any
-		for _, c := range g.NumCandidates(s, t == "integer", false) {
+		for _, c := range g.NumCandidates(s, t == "integer", g.IntLimits) {
 			cs = append(cs, c)
 		}
 		ns := *s
